@@ -126,8 +126,8 @@ InvIcptJoint ==
   (Converged /\ dsn.icpt /\ mode = "joint") => IcptJointOk(DN, AsMat(r), 1, 0)
 InvIcptYMean ==
   (dsn.icpt /\ mode = "ymean") => IcptYMeanOk(DN, AsMat(dsn.y), <<b>>, 1, MS)
-\* the lemma on a grid: no point of the grid {-3,-2.5,..,3}^p x {b-1,b,b+1} beats the joint fixed point
-Grid == {q * (MS \div 2) : q \in -6..6}
+\* the lemma on a grid: no point of the grid {-2,-1.5,..,2}^p x {b-1,b,b+1} beats the joint fixed point
+Grid == {q * (MS \div 2) : q \in -4..4}
 RECURSIVE GridPts(_)
 GridPts(k) == IF k = 0 THEN {<<>>} ELSE {Append(s, v) : s \in GridPts(k - 1), v \in Grid}
 InvNoBetterOnGrid ==
